@@ -409,14 +409,41 @@ inline CostBreakdown recomputeCost(const OptCase &oc, const Problem &dec, bool t
         for (int k = 0; k <= oc.K; ++k)
         {
             LD t = T * k / oc.K;
-            LD st[5][kMaxDim];
+            LD st[5][kMaxDim], sa[5][kMaxDim];
             for (int d = 0; d < 5; ++d)
                 for (int j = 0; j < dec.dim; ++j)
-                    st[d][j] = polyDerivD(&C(i * nc, j), colStride(C), nc, t, d).value;
+                {
+                    PolyVal pv = polyDerivD(&C(i * nc, j), colStride(C), nc, t, d);
+                    st[d][j] = pv.value;
+                    sa[d][j] = pv.abssum;
+                }
             LD c = oc.prog.runValueLD(tstart + t, i, st[0], st[1], st[2], st[3], st[4]);
             LD w = (k == 0 || k == oc.K) ? 0.5L : 1.0L;
             b.integral += w * (T / oc.K) * c;
             b.abssum += fabsl(w * (T / oc.K) * c);
+            {
+                // a state that vanishes by construction (an end at rest) is evaluated by the library as a cancelling sum in
+                // double: its rounding (a few ulps of the sum of |terms|) enters the cost through the cost's sensitivity to
+                // that state, even where the cost term itself is (nearly) zero
+                double xs[5][kMaxDim], gs[5][kMaxDim] = {};
+                for (int d = 0; d < 5; ++d)
+                    for (int j = 0; j < dec.dim; ++j)
+                        xs[d][j] = (double)st[d][j];
+                double gt = 0;
+                CostProgram pr = oc.prog;
+                pr.rec = nullptr;
+                pr.pert = PERT_NONE;
+                pr.throw_at_seg = -1;
+                pr.throw_at_call = -1;
+                pr.bar_r2 = 0;
+                pr.conditionalWrites = false;
+                (void)pr.runCost((double)t, (double)(tstart + t), i, xs[0], xs[1], xs[2], xs[3], xs[4], gs[0], gs[1], gs[2], gs[3], gs[4], gt);
+                LD sens = 0;
+                for (int d = 0; d < 5; ++d)
+                    for (int j = 0; j < dec.dim; ++j)
+                        sens += fabsl((LD)gs[d][j]) * sa[d][j];
+                b.abssum += 1e-7L * w * (T / oc.K) * sens;
+            }
         }
         tstart += T;
     }
